@@ -47,7 +47,7 @@ def preload():
 
 
 def cases(tier, seed):
-    n = 450 if tier == "quick" else 10000
+    n = 900 if tier == "quick" else 20000
     return [{"seed": seed * 49999 + i * 3 + 1, "kind": KINDS[i % len(KINDS)]} for i in range(n)]
 
 
